@@ -37,6 +37,9 @@ CLAIMED["C15"] = K("rendered reply compared with the kernel outcome for every re
   "Every request goes through HTTP or gRPC; the api wrapper records the kernel request and the kernel outcome, the handler's rendered reply is checked against an independent rendering (status/100, resource or error body; gRPC code by status class, message fields, outcome flags), and the same spec is translated through the other protocol against a capture api to compare kernel requests. Error statuses are produced by real faults, tiny queues and shutdown. Input-dominated property: see DESIGN.md 9.", "DESIGN.md 5 C15, 9")
 CLAIMED["C20"] = K("hostile-but-legal client data written through one front end and observed through the other, through search, claims, notifications, dispatched bodies and after restart, against byte-exact oracles",
   "Ids with separators, markup, case and whitespace variants and non-ASCII text, arbitrary value bytes, header/tag maps, int64-extreme timeouts; the kernel request must equal the spec (both protocols), rows must equal the request, every body must equal the row, derived ids (scheduled promise ids, task ids) must embed the client id verbatim. Input-dominated property: see DESIGN.md 9.", "DESIGN.md 5 C20, 9")
+CLAIMED["C18"] = ("P", "deterministic simulation: production poll worker loop and HTTP handler in a testing/synctest bubble, one event at a time, against a registry model",
+  "Sequences of connects, client departures, reconnects with the same id, sends (invoke/resume/notify, with and without id), worker stalls inside completion callbacks, slow clients and stops over 2-3 groups and ids with buffer, connection-limit and queue sizes down to 1; every completion and every byte written to a stream is judged against a registry model written from the statement. Seeded sampling: evidence, not proof.",
+  "Trusts testing/synctest quiescence; TCP and net/http's server are not involved; schedules in which a select would have two ready cases are not generated.", "DESIGN.md 5 C18")
 
 def hooks_commits():
     out = subprocess.run(["git", "-C", "/repo", "log", "--format=%H %s"], capture_output=True, text=True).stdout
@@ -76,6 +79,8 @@ def main():
 
 NA = {}
 ENGINES = [
+ {"name": "P", "path": "/verif/sim/p", "serves_properties": ["C18"],
+  "kind_free_text": "poll transport engine: production PollWorker.Start and PollHandler.ServeHTTP inside a testing/synctest bubble (go1.26.8), seeded one-event-at-a-time scheduler, registry model"},
  {"name": "S", "path": "/verif/sim/s", "serves_properties": ["C16", "C17"],
   "kind_free_text": "store-only engine: generated batches of store transactions through the production store code of one or both backends over the fault-injecting driver, compared with the in-memory reference store and a mid-transaction observer"},
  {"name": "K", "path": "/verif/sim/k", "serves_properties": sorted(p for p, v in CLAIMED.items() if v[0] == "K"),
